@@ -34,7 +34,33 @@ pub fn run(case: &Value, em: &mut Emitter) {
     em.emit("adjust", json!({"orig": case["orig"], "adj": case["adj"]}), out);
 }
 
+/// long runs of original tokens that no adjustment covers, then an adjustment starting strictly inside a stretch;
+/// optionally very wide columns (>= 65536)
+fn gen_long(rng: &mut Rng) -> Value {
+    let scale: i64 = if rng.chance(1, 2) { 1 } else { 7001 };
+    let n = 70 + rng.below(130) as i64;
+    let nlines = 1 + rng.below(3) as i64;
+    let mut orig = vec![];
+    for k in 0..n {
+        let l = k * nlines / n;
+        orig.push(json!([l, (k % (n / nlines + 1)) * 3 * scale + if k % 5 == 0 { 1 } else { 0 }, k % 2, k, 50 + k, -1, 0]));
+    }
+    orig.sort_by_key(|t| (t[0].as_i64().unwrap(), t[1].as_i64().unwrap()));
+    orig.dedup_by_key(|t| (t[0].as_i64().unwrap(), t[1].as_i64().unwrap()));
+    let mut adj = vec![];
+    for _ in 0..1 + rng.below(3) {
+        let t = rng.pick(&orig[orig.len() * 2 / 3..]).clone();
+        let (l, c) = (t[0].as_i64().unwrap(), t[1].as_i64().unwrap() + 1 + rng.range(0, 1));   // strictly inside (or at) a stretch
+        let (dl, dc) = (rng.range(0, 2), rng.range(0, 5) * scale);
+        adj.push(json!([l + dl, c + dc, 0, l, c, -1, 0]));
+    }
+    adj.sort_by_key(|t| (t[3].as_i64().unwrap(), t[4].as_i64().unwrap()));
+    adj.dedup_by_key(|t| (t[3].as_i64().unwrap(), t[4].as_i64().unwrap()));
+    json!({"op": "adjust", "orig": orig, "adj": adj, "shuffle": 1 + rng.below(1000)})
+}
+
 pub fn gen(rng: &mut Rng, size: usize) -> Value {
+    if rng.chance(1, 12) { return gen_long(rng); }
     let lines = 1 + rng.below(if size > 5 { 50 } else { 4 }) as i64;
     let cols = 2 + rng.below(if size > 5 { 50 } else { 12 }) as i64;
     let dups = rng.chance(1, 3);
